@@ -97,10 +97,13 @@ def run_model_instances(run, mc_module, monitor, instances, variants=None, kinds
                     seen.add(key)
                     uniq.append(b)
             beh = uniq
+        nbeh = len(beh)
         if max_exec and len(beh) > max_exec:
             import random
             rng = random.Random(run.seed)
             beh = rng.sample(beh, max_exec)
+            run.note('instance %s: %d of %d model behaviours replayed (seeded sample)' % (inst['label'], max_exec, nbeh))
+            run.exhaustive_broken = True
         jobs = []
         for b in beh:
             sc = replay.script_to_scenario(b['script'], inst['cfg'], naddr=consts['NAddr'])
@@ -135,7 +138,7 @@ def run_model_instances(run, mc_module, monitor, instances, variants=None, kinds
 
 def standard_run(prop, tier, seed, mc_module, monitor, instances, kinds, rule, nontrivial, anchors=None,
                  variants=None, post=None, judge_field='.tr', exhaustive=None, extra=None, known_sig=None,
-                 sample_keys=('ev',)):
+                 sample_keys=('ev',), max_exec=None):
     """The whole pipeline for one property decided on the session model."""
     r = pipeline.Run(prop, tier, seed)
     r.rule = rule
@@ -144,8 +147,10 @@ def standard_run(prop, tier, seed, mc_module, monitor, instances, kinds, rule, n
                      'bounds of each model instance are listed under coverage.detail.instances / tlc_runs']
     if extra:
         extra(r)
+    if max_exec is None and tier == 'thorough':
+        max_exec = 40000        # behaviours replayed per model instance (seeded sample when the model has more)
     results, rej = run_model_instances(r, mc_module, monitor, instances, variants=variants, kinds=kinds, post=post,
-                                       judge_field=judge_field)
+                                       judge_field=judge_field, max_exec=max_exec)
     nt = set()
     seen = set()
     for label, b, sc, log in results:
@@ -155,7 +160,7 @@ def standard_run(prop, tier, seed, mc_module, monitor, instances, kinds, rule, n
         if anchors:
             seen.update(anchors(log, sc))
     r.nontrivial = len(nt)
-    r.exhaustive = (tier == 'quick') if exhaustive is None else exhaustive
+    r.exhaustive = ((tier == 'quick') if exhaustive is None else exhaustive) and not getattr(r, 'exhaustive_broken', False)
     r.cov['anchors_seen'] = sorted(seen)
     for label, b, sc, log in results[:2] + results[len(results) // 2: len(results) // 2 + 1]:
         r.samples.append({"instance": label, "scenario": sc,
